@@ -31,6 +31,7 @@ import (
 	"github.com/grailbio/bigmachine"
 	"github.com/grailbio/bigslice"
 	"github.com/grailbio/bigslice/frame"
+	"github.com/grailbio/bigslice/internal/simhook"
 	"github.com/grailbio/bigslice/metrics"
 	"github.com/grailbio/bigslice/sliceio"
 	"github.com/grailbio/bigslice/stats"
@@ -292,6 +293,7 @@ func (b *bigmachineExecutor) commit(ctx context.Context, m *sliceMachine, key st
 }
 
 func (b *bigmachineExecutor) Run(task *Task) {
+	simhook.Yield("bm.run", func() string { return task.Name.String() })
 	task.Status.Print("waiting for a machine")
 
 	invIndex := task.Invocation.Index
@@ -333,6 +335,7 @@ func (b *bigmachineExecutor) Run(task *Task) {
 		return
 	case m = <-offerc:
 	}
+	simhook.Yield("bm.offered", func() string { return fmt.Sprintf("%s|%s|%d", task.Name, m.Addr, procs) })
 	numTasks := m.Stats.Int("tasks")
 	numTasks.Add(1)
 	m.UpdateStatus()
@@ -364,11 +367,13 @@ compile:
 			// involve dependencies other than potentially uploading data from
 			// the driver node, so we consider any error to be fatal to the task.
 			task.Errorf("failed to compile invocation on machine %s: %v", m.Addr, err)
+			simhook.Yield("bm.returned", func() string { return fmt.Sprintf("%s|%s|%d", task.Name, m.Addr, procs) })
 			m.Done(procs, err)
 			return
 		default:
 			task.Status.Printf("task lost while compiling bigslice.Func: %v", err)
 			task.Set(TaskLost)
+			simhook.Yield("bm.returned", func() string { return fmt.Sprintf("%s|%s|%d", task.Name, m.Addr, procs) })
 			m.Done(procs, err)
 			return
 		}
@@ -390,6 +395,7 @@ compile:
 				// TODO(marius): make this a separate state, or a separate
 				// error type?
 				task.Errorf("task %v has no location", deptask)
+				simhook.Yield("bm.returned", func() string { return fmt.Sprintf("%s|%s|%d", task.Name, m.Addr, procs) })
 				m.Done(procs, nil)
 				return
 			}
@@ -425,6 +431,7 @@ compile:
 	var reply taskRunReply
 	err = m.RetryCall(ctx, "Worker.Run", req, &reply)
 	statsCancel()
+	simhook.Yield("bm.returned", func() string { return fmt.Sprintf("%s|%s|%d", task.Name, m.Addr, procs) })
 	m.Done(procs, err)
 	switch {
 	case err == nil:
